@@ -3,6 +3,7 @@ CONSTANTS
   Vals = {1, 2}
   MaxLen = 3
   MaxOps = 6
+  Universe = "adv"
   BType = "rlp"
   BRawId = ""
   Proj <- NoProj
